@@ -126,6 +126,48 @@ Theorem C20_lql_abs_own : forall k f, nth_error lql_formats k = Some f -> nth_er
 Proof. exact lql_abs_own_clean. Qed.
 Print Assumptions C20_lql_abs_own.
 
+(* ---- am/pm in lower case ----
+   The regular expression of the term P admits am|AM|pm|PM; time.Parse reads its layout element PM in upper case only (and
+   month / weekday names in any case). Format.Parse therefore tries the upper-cased text when time.Parse refused the matched
+   text and the layout has PM (parse_one = parse_one_v code_ampm_retry; the self theorems above are untouched: on the
+   texts a format writes the first attempt succeeds). *)
+Theorem C20_ampm_retry : forall now cf text m, rx_find (cf_rx cf) text = Some m -> go_parse (cf_elems cf) m = None ->
+  has_pm (cf_elems cf) = true ->
+  parse_one now cf text = match go_parse (cf_elems cf) (to_upper m) with
+                          | Some t => Some (instant (adjust now cf t))
+                          | None => None
+                          end.
+Proof. exact parse_one_retry. Qed.
+Print Assumptions C20_ampm_retry.
+
+(* the collector's list on four lines with the marker in lower case: the 12-hour format answers with the afternoon
+   (31/12/2019 23:59:59; 2019-03-11 14:34:55 twice; 1/2/2019 03:04) *)
+Theorem C20_ampm_lowercase :
+  parse_all w_now collector_list (B "31/12/2019 11:59:59 pm job done") = Some (11%nat, (1577836799, 0)) /\
+  parse_all w_now collector_list (B "2019-03-11 02:34:55 pm") = Some (48%nat, (1552314895, 0)) /\
+  parse_all w_now collector_list (B "Mar 11, 2019 2:34:55 pm x") = Some (0%nat, (1552314895, 0)) /\
+  parse_all w_now collector_list (B "1/2/2019 3:04 am") = Some (13%nat, (1548990240, 0)).
+Proof.
+  unfold collector_list. rewrite <- known_c_eq. destruct ampm_lower_witnesses as (H1 & H2 & H3 & H4 & _).
+  repeat split; assumption.
+Qed.
+Print Assumptions C20_ampm_lowercase.
+
+(* refuted for Format.Parse without the retry (parse_all_v false): no 12-hour format reads the marker, and a later format
+   claims the text with ANOTHER instant -- 11:59:59 in the morning by "DD/MM/YYYY HH:mm:ss", 2020-02-01 by "D/M/YY" -- or
+   nothing dates the line *)
+Theorem C20_ampm_lowercase_no_retry_refuted :
+  parse_all_v false w_now collector_list (B "31/12/2019 11:59:59 pm job done") = Some (15%nat, (1577793599, 0)) /\
+  nth_error known_formats 15 = Some (B "DD/MM/YYYY HH:mm:ss") /\
+  parse_all_v false w_now collector_list (B "1/2/2019 3:04 am") = Some (34%nat, (1580515200, 0)) /\
+  parse_all_v false w_now collector_list (B "Mar 11, 2019 2:34:55 pm x") = None /\
+  (forall now fs text, parse_all_v code_ampm_retry now fs text = parse_all now fs text).
+Proof.
+  unfold collector_list. rewrite <- known_c_eq. destruct ampm_lower_witnesses as (_ & _ & _ & _ & _ & H1 & H2 & H3 & H4).
+  repeat split; try assumption. intros now fs text. apply parse_all_v_code.
+Qed.
+Print Assumptions C20_ampm_lowercase_no_retry_refuted.
+
 (* ---- LQL literals ----
    Full statement: an absolute literal written in the k-th LQL format is the Unix nanoseconds of the instant it denotes.
    [lower] = the format list sees the lower-cased literal (the code before the fix of parseLqlDateTime); the code as it
